@@ -14,6 +14,8 @@ EXHAUSTIVE = {"quick": "ILP feasible set = bucket orders for n<=4 (model), all 7
               "thorough": "ILP n<=5, all datasets over 3 elements with <=3 rankings (sub-sampled per configuration), "
                           "a 1/10 sample of the 22648 4-element datasets, random datasets up to 7 elements"}
 ASSUMPTIONS = ["CBC (via PuLP) trusted as a MILP solver -- a wrong answer shows up as a violation, it is not masked",
+               "CBC works with tolerances: the lexicographic (two-magnitude, relative differences of 6e-11) schemes are "
+               "only run on the CPLEX code paths (stand-in, exact enumeration), not on the free-solver path",
                "real CPLEX is absent: its API is played by harness/standin_cplex.py (enumeration over bucket-order "
                "encodings checked against every recorded row)",
                "optimum: brute force over all bucket orders (n<=5) / subset DP (model-checked equal on the grid)"]
@@ -85,7 +87,9 @@ def stages(tier, rng, only=None):
     out.append(ac.stage("gigantic_penalties", PID, lambda: ac.scaled_cases(ext, EXACT, SCHEMES, -60), _nt))
     out.append(ac.stage("lexicographic_penalties", PID, lambda: ac.lex_cases(
         grids.datasets(3, 2)[::6] + [ac.cyclic_dataset(rng, 3, 5, incomplete=k % 3 == 2) for k in range(40 if tier == "quick" else 400)],
-        EXACT), _nt))
+        ["ExactCplex(opt)", "ExactCplex(noopt)", "ExactOptim1"])
+        + ac.lex_cases(grids.datasets(3, 2)[::9] + [ac.cyclic_dataset(rng, 3, 5) for _ in range(30 if tier == "quick" else 300)],
+                       ["Exact(opt)", "Exact(noopt)"], env="standin"), _nt))
     out.append(ac.stage("eleven_plus", PID, lambda: ac.cases(
         [ac.eleven_plus_dataset(rng) for _ in range(6 if tier == "quick" else 40)],
         ["ExactPulp", "Exact(opt)", "Exact(noopt)", "ExactCplex(opt)", "ExactOptim1"], SCHEMES, flags=(1,)), _nt))
